@@ -33,6 +33,10 @@ def pu_indexes(rng, widths, names):
         a = rng.choice(_factorisations(total))
         b = total // a
         return rng.choice(["%d*%d:1*%d" % (b, a, b), "%d*%d" % (b, a), "1*%d:%d*%d" % (b, b, a)])
+    if k < 0.75:
+        # arbitrary small loops: products different from the width, colliding strides (must be ignored, never half-used)
+        loops = ["%d*%d" % (rng.choice([1, 1, 2, 2, 3, 4, 6]), rng.choice([1, 2, 2, 3, 3, 4])) for _ in range(rng.randint(1, 3))]
+        return ":".join(loops)
     if k < 0.9 and names:
         ns = rng.sample(names, min(len(names), rng.randint(1, 3)))
         return ":".join(ns)
@@ -180,6 +184,8 @@ HANDMADE = [
     "group:2 group:2 pu:2(indexes=group2)", "group:2 group:3 core:2 pu:1(indexes=group1:core)", "group7:2 group:2 pu:1(indexes=group7:group)",
     "[numa] pack:2 [numa] pu:2", "pack:2 [numa] [numa] pu:2", "pack:2 [numa] core:1 [numa] pu:2", "[numa(memory=1GB)] pack:2 pu:2", "pack:2 [numa(memorysidecachesize=1MB)] pu:2",
     "pu:4(indexes=2x2)", "pu:4(indexes=2*x)", "pu:4(indexes=2*)", "pu:4(indexes=2*2:x)", "pu:4(indexes=2*2:1*y)",
+    "pack:6 [numa(indexes=1*3:2*2)] pu:1", "pu:6(indexes=1*3:2*2)", "pu:6(indexes=2*3:1*2)", "pu:4(indexes=1*2:1*2)", "pu:8(indexes=2*2:2*2)", "numa:6(indexes=1*3:2*2) pu:1",
+    "pack:2 core:3 pu:2(indexes=2*3:2*2)", "pu:12(indexes=3*2:1*3:6*2)", "pu:12(indexes=3*2:1*3:2*2)",
     "numa:2(indexes=1,0) pu:1", "numa:2 core:2 pu:1", "pack:2 numa:2 pu:1", "pack:1 numa:1 core:1 pu:1", "core:1 pack:1 pu:2", "l1:1 l2:1 pu:2",
 ]
 
